@@ -38,7 +38,7 @@ func (f *faultStore) Put(addr oid.Address, data []byte) error {
 	} else {
 		err = f.Storage.Put(addr, data)
 	}
-	in.events = append(in.events, kit.M{"e": "bp", "k": "single", "b": []int{a}, "ok": err == nil})
+	in.logLocked(kit.M{"e": "bp", "k": "single", "b": []int{a}, "ok": err == nil})
 	in.change++
 	in.cond.Broadcast()
 	in.mu.Unlock()
@@ -67,7 +67,7 @@ func (f *faultStore) PutBatch(m map[oid.Address][]byte) error {
 	} else {
 		err = f.Storage.PutBatch(m)
 	}
-	in.events = append(in.events, kit.M{"e": "bp", "k": "batch", "b": ids, "ok": err == nil})
+	in.logLocked(kit.M{"e": "bp", "k": "batch", "b": ids, "ok": err == nil})
 	in.change++
 	in.cond.Broadcast()
 	in.mu.Unlock()
@@ -84,7 +84,7 @@ func (f *faultStore) logRead(addr oid.Address, data []byte, err error) {
 	if found && a != 0 && !bytes.Equal(data, in.objs[a].data) {
 		a = -a
 	}
-	in.events = append(in.events, kit.M{"e": "br", "a": a, "found": found})
+	in.logLocked(kit.M{"e": "br", "a": a, "found": found})
 	in.change++
 	in.cond.Broadcast()
 }
@@ -140,7 +140,7 @@ func (f *faultStore) Delete(addr oid.Address) error {
 	in.mu.Lock()
 	defer in.mu.Unlock()
 	err := f.Storage.Delete(addr)
-	in.events = append(in.events, kit.M{"e": "bd", "a": a})
+	in.logLocked(kit.M{"e": "bd", "a": a})
 	in.change++
 	in.cond.Broadcast()
 	return err
